@@ -25,10 +25,10 @@ func init() {
 			ma.ruleR14n(c)
 			ma.ruleR14m(c)
 			ma.ruleR8(c)
-			genRules(c, "G1", "G2", "G3")
+			genRules(c, "G1", "G2", "G3", "G4")
 			ruleG6(c)
 		},
-		explanation: "The behaviour is an equality of OCI specs and is not decided.  Decided is the bookkeeping shape that equality needs: every accepted write of a plugin value into the request view has a twin write of the same item and value into the reply accumulator under the same guard (and vice versa); for every removable collection kind the reply drops entries whose key is removal-marked, the view drops marked and re-set keys before the new entries are appended, and removals that are not re-set are re-emitted into the reply as markers; list-valued items only ever grow by append(existing, new...) in plugin order; every field of the adjustment messages is consumed by the merge code; the response getters return exactly the accumulators; and the generator that applies the reply consumes every adjustment field and interprets removals/sets order-independently. Also decided: plugin order is kept (no sorting or reversing in the merge functions or the generator's adjust functions, the mount sort aside); accumulated maps are created only when nil; lookups in the local removed/re-set key sets use the kind of key the set was filled with; a claim depends on presence only (the value of an optional wrapper is never tested).",
+		explanation: "The behaviour is an equality of OCI specs and is not decided.  Decided is the bookkeeping shape that equality needs: every accepted write of a plugin value into the request view has a twin write of the same item and value into the reply accumulator under the same guard (and vice versa); for every removable collection kind the reply drops entries whose key is removal-marked, the view drops marked and re-set keys before the new entries are appended, and removals that are not re-set are re-emitted into the reply as markers; list-valued items only ever grow by append(existing, new...) in plugin order; every field of the adjustment messages is consumed by the merge code; the response getters return exactly the accumulators; and the generator that applies the reply consumes every adjustment field and interprets removals/sets order-independently. Also decided: plugin order is kept (no sorting or reversing in the merge functions or the generator's adjust functions, the mount sort aside); accumulated maps are created only when nil; lookups in the local removed/re-set key sets use the kind of key the set was filled with; a claim depends on presence only (the value of an optional wrapper is never tested). The mount comparator orders by depth, then destination.",
 		notDecided: []string{
 			"equality of the resulting spec",
 			"value semantics inside the runtime-tools generator (e.g. replacement of an existing hugepage size)",
